@@ -345,7 +345,11 @@ def convert_resize_1x1_to_add(op):
     quantization.zero_point = 0
     op.inputs[1] = op.inputs[0]
     op.set_input_tensor(create_const_tensor(name, shape, dtype, values, quantization=quantization), 0)
+    # Only the inputs change. The OFM shape of the operator must be kept: it differs from the shape of the OFM tensor when
+    # a RESHAPE after the resize has already been bypassed
+    ofm_shape = op.ofm_shapes[0]
     op.set_ifm_ofm_shapes()
+    op.ofm_shapes[0] = ofm_shape
     DebugDatabase.add_optimised(op, op)
 
     return op
@@ -357,7 +361,9 @@ def convert_resize_1x1_to_add(op):
 def convert_resizenn_ac_to_depthwise_conv(op, upscale_factor):
     ifm = op.ifm
     ofm = op.ofm
-    output_depth = ofm.shape[-1]
+    # A resize keeps the depth. Not ofm.shape[-1]: when a RESHAPE after the resize has already been bypassed the OFM
+    # tensor is the reshaped one
+    output_depth = ifm.shape[-1]
     dw_op_attrs = {
         "padding": Padding.VALID,
         "stride_h": 1,
@@ -440,6 +446,9 @@ def convert_resize_to_upscale_and_average_pool(op):
     pre_op = op
     outputs = op.outputs
     dtype = op.ifm.dtype
+    # The OFM shape of the operator, not the shape of the OFM tensor: when a RESHAPE after the resize has already been
+    # bypassed the OFM tensor is the reshaped one
+    final_ofm_shape = op.ofm_shapes[0]
 
     op.attrs.update({"strides": (1, 1, 1, 1), "ksize": (1, 1, 1, 1)})
     op.attrs["padding"] = Padding.SAME  # doesn't really matter as the kernel is 1x1
@@ -503,6 +512,7 @@ def convert_resize_to_upscale_and_average_pool(op):
     scaled_op.outputs = outputs
     scaled_op.outputs[0].ops = [scaled_op]
     scaled_op.set_ifm_ofm_shapes()
+    scaled_op.ofm_shapes[0] = final_ofm_shape
     DebugDatabase.add_optimised(op, scaled_op)
 
     return op
@@ -727,7 +737,10 @@ def convert_resizebilinear_to_depthwise_convolutions(op, half_pixel_centers=True
         elem_size = 2 if ofm.dtype == DataType.int16 else 1
 
         n, h, w, c = ifm.shape
-        _, _, ow, _ = ofm.shape
+        # The OFM shape of the operator, not the shape of the OFM tensor: when a RESHAPE after the resize has already been
+        # bypassed the OFM tensor is the reshaped one
+        ofm_shape = op.ofm_shapes[0]
+        ow = ofm_shape.width
 
         intermediate_tens = Tensor(ifm.shape, ifm.dtype, "intermediate_tens")
         intermediate_tens.quantization = op.outputs[0].quantization.clone()
@@ -802,13 +815,14 @@ def convert_resizebilinear_to_depthwise_convolutions(op, half_pixel_centers=True
                 fixup_bias_tensors(dw_conv, None, None, dtype=DataType.int32)
 
                 dw_conv.set_ifm_ofm_shapes()
+                dw_conv.ofm_shapes[0] = ofm_shape
                 DebugDatabase.add_optimised(op, dw_conv)
 
                 dw_conv = dw_conv.clone(f"_{index}")
         return op
 
     _, input_height, input_width, _ = op.ifm.shape
-    _, output_height, output_width, _ = op.ofm.shape
+    output_height, output_width = op.ofm_shapes[0].height, op.ofm_shapes[0].width
 
     kernels = _compute_kernels(input_height, input_width, output_height, output_width)
     op = _build_convolutions(op, kernels)
